@@ -132,7 +132,7 @@ def signature(func, variadic=True, markup=True, safe=False):
     errors = [i for i in _fixed if i in p_kwds]
     if errors:
         if safe: return LONG_FAIL if variadic else TINY_FAIL
-        raise TypeError("%s() got multiple values for keyword argument '%s'" % (func.__name__,errors[0]))
+        raise TypeError("%s() got multiple values for keyword argument '%s'" % (getattr(func,'__name__','__call__'),errors[0]))
         # the above could fail if taking a partial of a partial
 
     # include any keyword-only defaults
